@@ -163,7 +163,7 @@ fn run_case(case: &Case, ctx: &mut Ctx) {
     let errors: Arc<Mutex<Vec<String>>> = Arc::new(Mutex::new(Vec::new()));
     let nwakers = case.wakers.len().clamp(1, 3);
     let queued_ops: Arc<Mutex<Vec<SendFut>>> = Arc::new(Mutex::new(Vec::new()));
-    if case.mode == Mode::Default && !case.full_queue && case.queued_ahead.iter().take(nwakers).any(|a| *a > 0) {
+    if case.mode != Mode::SingleIssuer && !case.full_queue && case.queued_ahead.iter().take(nwakers).any(|a| *a > 0) {
         classes.push("entries-ahead-of-wake-message");
     }
 
@@ -246,7 +246,7 @@ fn run_case(case: &Case, ctx: &mut Ctx) {
         let n = case.wakers[t].clamp(1, 2);
         let wd = wakers_done.clone();
         let errors = errors.clone();
-        let ahead = if case.mode == Mode::Default && !case.full_queue { case.queued_ahead.get(t).copied().unwrap_or(0).min(2) } else { 0 };
+        let ahead = if case.mode != Mode::SingleIssuer && !case.full_queue { case.queued_ahead.get(t).copied().unwrap_or(0).min(2) } else { 0 };
         let queued = queued_ops.clone();
         threads.push(Box::new(move || {
             for k in 0..ahead {
@@ -357,6 +357,11 @@ fn run_case(case: &Case, ctx: &mut Ctx) {
     if outcome.over_budget {
         if case.drop_ring && case.mode != Mode::Sqpoll && poller_done.load(Ordering::SeqCst) && wakers_done.load(Ordering::SeqCst) < nwakers {
             ctx.violation("C11:wake-never-returns", format!("the Ring was dropped while wake() was being called on another thread; {} of {nwakers} waker threads had not returned from wake() after 30000 scheduling steps (mode {:?})", nwakers - wakers_done.load(Ordering::SeqCst), case.mode));
+        } else if !case.drop_ring && !poller_done.load(Ordering::SeqCst) && wakers_done.load(Ordering::SeqCst) < nwakers {
+            // The Ring is alive, the poller blocked, and a wake() call is
+            // still going round after 30000 scheduling steps: it never
+            // returns (and never delivers).
+            ctx.violation("C11:wake-never-returns:ring-alive", format!("{} of {nwakers} waker threads had not returned from wake() after 30000 scheduling steps while the poller was blocked in Ring::poll (mode {:?})", nwakers - wakers_done.load(Ordering::SeqCst), case.mode));
         } else {
             ctx.infra("scheduler step budget exceeded");
         }
